@@ -43,18 +43,19 @@ for f in sorted(glob.glob(V + '/runs/*.json')):
     runs[os.path.basename(f)[:-5]] = json.load(open(f))
 quick = {k: v for k, v in runs.items() if k.startswith('quick_')}
 th = runs.get('thorough_seed0', {})
-print('| id | quick: units | states | transitions (evaluations) | compared with oracle | outcomes | wall s | exit codes over seeds %s | same case-outcome digest over seeds | thorough: units | states | transitions | wall s | exit |' % ','.join(sorted(k.split('seed')[1] for k in quick)))
-print('|---|---|---|---|---|---|---|---|---|---|---|---|---|---|')
+print('| id | quick: units | states | transitions (evaluations) | compared with oracle | outcomes | wall s | exit codes over seeds %s | same case-outcome digest over seeds | tree of the quick runs (per seed) | thorough: units | states | transitions | wall s | exit | tree |' % ','.join(sorted(k.split('seed')[1] for k in quick)))
+print('|---|---|---|---|---|---|---|---|---|---|---|---|---|---|---|---|')
 for pid in ['C%02d' % i for i in range(1, 21)]:
     qs = [quick[k].get(pid) for k in sorted(quick)]
     qs = [q for q in qs if q]
     q0 = qs[0] if qs else {}
     digs = {q.get('digest') for q in qs}
     t = th.get(pid, {})
-    print('| %s | %s | %s | %s | %s | %s | %s | %s | %s | %s | %s | %s | %s | %s |' % (
+    print('| %s | %s | %s | %s | %s | %s | %s | %s | %s | %s | %s | %s | %s | %s | %s | %s |' % (
         pid, q0.get('units'), q0.get('states'), q0.get('transitions'), q0.get('compared'), q0.get('outcomes'), q0.get('wall_s'),
         ' '.join(str(q.get('exit')) for q in qs), 'yes' if len(digs) == 1 and None not in digs else 'NO' if qs else '-',
-        t.get('units'), t.get('states'), t.get('transitions'), t.get('wall_s'), t.get('exit')))
+        ' '.join(q.get('tree', '7a999a5') for q in qs),
+        t.get('units'), t.get('states'), t.get('transitions'), t.get('wall_s'), t.get('exit'), t.get('tree', 'eea78c0' if pid == 'C01' else '7a999a5')))
 
 if "--write" in sys.argv:
     sys.stdout = _real
